@@ -204,6 +204,15 @@ func genJSONData(t *rapid.T) JSONDataCase {
 			what += " deleted"
 		case 4, 5:
 			h := rapid.SampledFrom(jsonDataHostile).Draw(t, "hostile")
+			if _, num := h.(float64); num && !o.ast && os.Getenv("VERIF_C05_JSONDATA_NO_EXCLUDE") == "" {
+				// known finding jsondata/task-died/window (same root cause as the two above: the reader
+				// does not validate the nodes it builds): a pipeline node's numeric member given another
+				// number ("periodCount": -1) is accepted and the first point ends the task (makeslice)
+				if recJSONData != nil {
+					recJSONData.Exclude("pipeline-node-number-member-given-another-number")
+				}
+				continue
+			}
 			o.m[k] = deepCopyJSON(h)
 			what += fmt.Sprintf(" = %v", h)
 		case 6:
